@@ -785,7 +785,10 @@ class PathResolver:
         if isinstance(iter_expr, (ast.List, ast.Tuple)) and not idx:
             out = []
             for el in iter_expr.elts:
-                out += self.paths(el, node)
+                if isinstance(el, ast.Starred):
+                    out += self._iter_elem_paths(el.value, idx, node)      # [*xs, ..]: the elements of xs
+                else:
+                    out += self.paths(el, node)
             return out
         if isinstance(iter_expr, (ast.GeneratorExp, ast.ListComp)) and not idx:
             return self.paths(iter_expr.elt, node)
@@ -854,6 +857,14 @@ class PathResolver:
             return self.paths(v.elt, defs[0])
         if isinstance(v, ast.DictComp):
             return self.paths(v.value, defs[0])
+        # a local snapshot: `xs = [*ys]`, `xs = [a, b]`, `xs = list(ys)`, `xs = ys[:]`, `xs = tuple(ys)`
+        if isinstance(v, (ast.List, ast.Tuple)) and v.elts:
+            return self._iter_elem_paths(v, (), defs[0])
+        if isinstance(v, ast.Call) and isinstance(v.func, ast.Name) and v.func.id in ('list', 'tuple', 'sorted', 'set') \
+                and len(v.args) == 1:
+            return self._iter_elem_paths(v.args[0], (), defs[0])
+        if isinstance(v, ast.Subscript) and isinstance(v.slice, ast.Slice):
+            return self._iter_elem_paths(v.value, (), defs[0])
         return None
 
     def _def_paths(self, name: str, d: CNode, node) -> list[Path]:
@@ -993,6 +1004,14 @@ class PathResolver:
             else:
                 step = ELEM
             return [p.add(step) for p in self.paths(e.value, node)]
+        if isinstance(e, ast.Call) and isinstance(e.func, ast.Attribute) and e.func.attr in ('pop', 'popleft') \
+                and isinstance(e.func.value, ast.Name) and len(e.args) <= 1 and not e.keywords:
+            # work-list idiom: `xs.pop()` hands out an element of xs
+            t = self.env.type_of(e.func.value)
+            if t[0] in ('list', 'set'):
+                got = self._iter_elem_paths(e.func.value, (), node)
+                if got:
+                    return got
         if isinstance(e, ast.Call):
             return self._call_paths(e, node, None)
         if isinstance(e, ast.IfExp):
